@@ -135,6 +135,7 @@ func main() {
 }
 
 func (sc *scanner) result(repo string) *output {
+	sc.dropReadOnlyGlobals()
 	o := &output{Repo: repo, LocCodes: map[string]int{}, PkgHash: map[string]string{}, Skipped: sc.skippedLocal, Warnings: sc.warnings}
 	for _, r := range sc.rows {
 		o.Rows = append(o.Rows, r)
